@@ -20,7 +20,8 @@ def one(path):
 def main():
     args = [a for a in sys.argv[1:] if not a.startswith("-j")]
     j = [int(a[2:]) for a in sys.argv[1:] if a.startswith("-j")]
-    paths = sorted(glob.glob(os.path.join(HERE, "refactors", "*", "refactor-*.diff")))
+    # (selftest/variants/*.diff: correct counterparts of seeded changes - same mechanism without the slip - must be silent too)
+    paths = sorted(glob.glob(os.path.join(HERE, "refactors", "*", "refactor-*.diff"))) + sorted(glob.glob(os.path.join(HERE, "variants", "*.diff")))
     if args:
         paths = [p for p in paths if any(("/" + a) in p or a in p.split("/")[-2] for a in args)]
     bad = 0
